@@ -64,13 +64,16 @@ CHECKS = {
              "effect): every ordered pair of a 21-call alphabet (incl. delete_study) with a single preemption at each "
              "(quick: sampled) point, random 2-3 worker schedules, and real forked OS processes free-running on one journal "
              "file / SQLite file ordered only by end(a) < start(b). An algorithm-level lock model (InMemLock) is checked with "
-             "its lock-free variant failing. About 5000 histories per quick run, each validated by TLC.",
+             "its lock-free variant failing. Reader/writer/reader double preemptions for every kind with a client cache, "
+             "'finish the trial another worker is creating' programs, and closing reads (best trial, WAITING filter, full "
+             "listing through every storage object) are part of the histories. About 10000 histories per quick run, each "
+             "validated by TLC.",
         note="Trusted: TLC, line-level (not bytecode-level) preemption, the GIL's atomicity of C-level container "
              "operations, the creation-order id normalisation (ids must be handed out in linearization order). The file "
              "backend's own concurrency is C07. delete_study is not in the SQLite alphabet (id reuse, K2, breaks the id "
-             "numbering). Known findings K1 (SQLite compare-and-set; two overlapping set_trial_state_values on one trial) and "
-             "K13 (torn multi-statement reads; only if the history is linearizable without the overlapping reads) are matched "
-             "by shape.",
+             "numbering). Known findings K1 (SQLite compare-and-set; two overlapping set_trial_state_values on one trial), "
+             "K13 (torn multi-statement reads; only if the history is linearizable without the overlapping reads) and K14 (a "
+             "trial write accepted while another connection finishes that trial) are matched by shape, on SQLite kinds only.",
         technique="linearizability as a TLA+ trace specification, search over linearization points by TLC; real threads "
                   "under a deterministic line-level / SQL-statement-level scheduler",
         ref="DESIGN.md section 4 C03, section 3.2",
